@@ -3,6 +3,7 @@ package main
 // Calls: builtins, math models, spec helpers, inlining, modular use of contracts.
 
 import (
+	"os"
 	"fmt"
 	"go/constant"
 	"math"
@@ -669,7 +670,7 @@ func (x *Exec) callFunc(s *State, fn *types.Func, call *ast.CallExpr) []*Term {
 		if extCallPure(fn) {
 			// determinism is assumed only for plain functions and for the read-only font tables; methods of
 			// other external types may carry hidden state (strings.Builder, time.Time ...)
-			if fn.Pkg().Path() == "time" || (sig.Recv() != nil && fn.Pkg().Path() != "github.com/tdewolff/font") {
+			if fn.Pkg().Path() == "time" || (sig.Recv() != nil && fn.Pkg().Path() != "github.com/tdewolff/font" && fn.Pkg().Path() != "image/color") {
 				if sig.Recv() != nil {
 					// ghost log: the order of calls on external stateful objects is observable (wroteSeq("@(*pkg.T).M", ...))
 					s.log = append(s.log, "@"+fn.FullName())
@@ -1082,9 +1083,9 @@ func (x *Exec) callModular(s *State, fi *FuncInfo, ct *Contract, recv *Term, arg
 	if ct.Logged {
 		s.log = append(s.log, "@"+fi.Key)
 	}
-	if !(ct.HasAssign && len(ct.Assigns) == 0) && !ct.Pure {
+	if !(ct.HasAssign && len(ct.Assigns) == 0) && !ct.Pure && !fi.pure {
 		// the callee may call out of the module itself: what it called is unknown here
-		s.calls, s.callsOpen = nil, true
+		s.calls = append(s.calls, callRec{name: "?"})
 	}
 	pre := s.clone()
 	// frame
@@ -1415,7 +1416,13 @@ func (x *Exec) callSpecHelper(s *State, fn *types.Func, call *ast.CallExpr) []*T
 		return []*Term{BoolLit(found)}
 	case "callCount":
 		// number of recorded calls whose name ends in the pattern; unknown when the log has an unknown prefix
-		if tv, ok := x.tv(call.Args[0]); ok && tv.Value != nil && tv.Value.Kind() == constant.String && !s.callsOpen {
+		hasGap := s.callsOpen
+		for _, c := range s.calls {
+			if c.name == "?" {
+				hasGap = true
+			}
+		}
+		if tv, ok := x.tv(call.Args[0]); ok && tv.Value != nil && tv.Value.Kind() == constant.String && !hasGap {
 			n := 0
 			for k := 0; ; k++ {
 				if x.findCall(s, constant.StringVal(tv.Value), k) == nil {
@@ -1442,6 +1449,11 @@ func (x *Exec) callSpecHelper(s *State, fn *types.Func, call *ast.CallExpr) []*T
 				if want == SReal && a.S == SInt {
 					return []*Term{ToReal(a)}
 				}
+			}
+		}
+		if os.Getenv("GOVC_TRACE") != "" {
+			for _, c := range s.calls {
+				fmt.Fprintf(os.Stderr, "calllog open=%v %s lits=%q nargs=%d\n", s.callsOpen, c.name, c.lits, len(c.args))
 			}
 		}
 		x.note("ghost call log: %s not resolvable here (unknown prefix, merge, or no such call)", exprString(call))
@@ -1724,7 +1736,15 @@ func (x *Exec) findCall(s *State, pat string, k int) *callRec {
 		name, lit = pat[:i], pat[i+1:]
 	}
 	var idx []int
+	firstGap, lastGap := -1, -1
 	for i, c := range s.calls {
+		if c.name == "?" {
+			if firstGap < 0 {
+				firstGap = i
+			}
+			lastGap = i
+			continue
+		}
 		if !strings.HasSuffix(c.name, name) {
 			continue
 		}
@@ -1742,12 +1762,14 @@ func (x *Exec) findCall(s *State, pat string, k int) *callRec {
 		idx = append(idx, i)
 	}
 	if k >= 0 {
-		if s.callsOpen || k >= len(idx) {
+		// valid while no unknown gap precedes the k-th match
+		if s.callsOpen || k >= len(idx) || (firstGap >= 0 && firstGap < idx[k]) {
 			return nil
 		}
 		return &s.calls[idx[k]]
 	}
-	if -k > len(idx) {
+	// from the end: valid while no unknown gap follows the match
+	if -k > len(idx) || idx[len(idx)+k] < lastGap {
 		return nil
 	}
 	return &s.calls[idx[len(idx)+k]]
